@@ -15,6 +15,8 @@ type verifKeySpec struct {
 	cipher, secret int
 }
 
+var verifEmptyIDs bool
+
 func verifMakeList(n int, nSecrets int, withHistory bool) (CipherList, []verifKeySpec, []*CipherEntry) {
 	l := list.New()
 	specs := make([]verifKeySpec, n)
@@ -24,7 +26,11 @@ func verifMakeList(n int, nSecrets int, withHistory bool) (CipherList, []verifKe
 	ipB := remoteIP(&verifStreamConn{remote: &net.TCPAddr{IP: net.IPv4(203, 0, 113, 6), Port: 1}})
 	for i := 0; i < n; i++ {
 		specs[i] = verifKeySpec{verifChoice("cipher", 4), verifChoice("secret", nSecrets)}
-		e := MakeCipherEntry("id-"+string(rune('0'+i)), verifKey(specs[i].cipher, verifSecrets[specs[i].secret]), verifSecrets[specs[i].secret])
+		id := "id-" + string(rune('0'+i))
+		if verifEmptyIDs {
+			id = "" // ids are not validated by the configuration: the empty string is a possible id
+		}
+		e := MakeCipherEntry(id, verifKey(specs[i].cipher, verifSecrets[specs[i].secret]), verifSecrets[specs[i].secret])
 		if withHistory {
 			switch verifChoice("last-ip", 3) {
 			case 1:
